@@ -97,6 +97,30 @@ def unpublishedInfo (ns suffix jcs : String) : Json :=
     (if jcs = "" then [] else [("equivalentId", .arr [.str short])]) ++
     [("id", .str (if jcs = "" then short else short ++ ":" ++ jcs))])
 
+/-- `strings.Contains` -/
+def containsSub (s sub : List Char) : Bool :=
+  sub.isEmpty || (List.range (s.length + 1)).any fun i => sub.isPrefixOf (s.drop i)
+
+/-- `GetTransformationInfoForUnpublished(ns, domain, label, suffix, jcs)` in full (the long-form
+    handler passes empty domain and label: `unpublishedInfo`) -/
+def unpublishedInfoFull (ns domain label suffix jcs : String) : Json :=
+  let id := if label = "" then ns ++ ":" ++ suffix else ns ++ ":" ++ label ++ ":" ++ suffix
+  let eq1 := if jcs = "" then [] else [Json.str id]
+  let eq2 :=
+    if label ≠ "" ∧ domain ≠ "" then
+      [Json.str (if containsSub label.toList domain.toList then id else ns ++ ":" ++ domain ++ ":" ++ label ++ ":" ++ suffix)]
+    else []
+  .obj ([("published", .bool false)] ++
+    (if (eq1 ++ eq2).isEmpty then [] else [("equivalentId", .arr (eq1 ++ eq2))]) ++
+    [("id", .str (if jcs = "" then id else id ++ ":" ++ jcs))])
+
+/-- `GetTransformationInfoForPublished(ns, id, suffix, state)`: the canonical id is always set; the
+    equivalent ids are the canonical id followed by one id per equivalent reference, in order -/
+def publishedInfo (ns id suffix canonicalRef : String) (equivalentRefs : List String) : Json :=
+  let canonical := ns ++ (if canonicalRef = "" then "" else ":" ++ canonicalRef) ++ ":" ++ suffix
+  .obj [("id", .str id), ("published", .bool true), ("canonicalId", .str canonical),
+        ("equivalentId", .arr (.str canonical :: equivalentRefs.map fun r => .str (ns ++ ":" ++ r ++ ":" ++ suffix)))]
+
 /-- `getCreateResponse`: apply the create to an empty state, refuse an empty document, transform -/
 def createResponse (H : HashFam) (orc : Oracles) (suffix : String) (req : Json) (size : Nat) (info : Json) : Option Json :=
   let anchored : AnchoredOp :=
